@@ -2621,6 +2621,11 @@ type tupleExpr struct {
 	closing  token.Pos
 }
 
+// Pos and End keep error paths that meet a stray tuple (e.g. `defer ()`) from
+// calling through the nil embedded ast.Expr.
+func (t *tupleExpr) Pos() token.Pos { return t.opening }
+func (t *tupleExpr) End() token.Pos { return t.closing }
+
 func (p *parser) parseLambdaExpr(allowTuple, allowCmd, allowRangeExpr bool) (x ast.Expr, isTuple bool) {
 	var first = p.pos
 	if p.tok != token.DRARROW {
